@@ -2,6 +2,7 @@ package checks
 
 import (
 	"fmt"
+	"reflect"
 	"strconv"
 
 	bexpr "github.com/hashicorp/go-bexpr"
@@ -13,7 +14,7 @@ import (
 func init() {
 	eng.Register(&eng.Check{
 		ID:          "C06",
-		Rule:        "E1 bounded product for quantifiers: collection shapes ([]interface{}, [N]interface{}, []map, []struct, []*struct, []int, []string, map[string]interface{}, map[string]struct, nested lists/maps) of length 0..4 (thorough 0..5) with EVERY assignment of {T,F,E} to the elements' body outcome, plus lengths 8, 9, 17, 33 with the decisive / erroring element at first, middle, last position x any/all x 4 binding modes x 4 name choices (fresh, shadowing a top-level field, same name twice) x body templates (binding as root, as prefix, via JSON pointer, index/key, unused, mixed, negated) x nesting up to 3, plus non-iterables; oracles: (a) reference interpreter, (b) unrolling on the implementation: for value aliases over lists `any S as x {P(x)}` == `P(S.0) or ... or P(S.n-1)` (all: conjunction) by syntactic substitution. Distinct by construction; non-trivial = the collection selector resolved to an iterable with >=1 element (the fold ran).",
+		Rule:        "E1 bounded product for quantifiers: collection shapes ([]interface{}, [N]interface{}, []map, []struct, []*struct, []int, []string, map[string]interface{}, map[string]struct, nested lists/maps; lists and maps of wrapper structs under the unwrap hook; a list under the identity hook with an unknown value) of length 0..4 (thorough 0..5) with EVERY assignment of {T,F,E} to the elements' body outcome, plus lengths 8, 9, 17, 33 with the decisive / erroring element at first, middle, last position x any/all x 4 binding modes x 4 name choices (fresh, shadowing a top-level field, same name twice) x body templates (binding as root, as prefix, via JSON pointer, index/key, unused, mixed, negated) x nesting up to 3 (incl. the same collection iterated again inside its own body, and collections under 3- and 5-part selectors), plus non-iterables; oracles: (a) reference interpreter, (b) unrolling on the implementation: for value aliases over lists `any S as x {P(x)}` == `P(S.0) or ... or P(S.n-1)` (all: conjunction) by syntactic substitution. Distinct by construction; non-trivial = the collection selector resolved to an iterable with >=1 element (the fold ran).",
 		Assumptions: []string{"reference interpreter as in C01 (map iteration order unspecified when an element errors and another is decisive: both outcomes allowed, consistency is C14's business)"},
 		Run:         runC06,
 	})
@@ -26,6 +27,15 @@ type c06shape struct {
 	mk     func(pat []int) *Node
 	body   func(v string) *Match // value body giving the element's outcome
 	nested bool
+	// configuration under which the shape is evaluated (default: none)
+	hook    int
+	unknown *Node
+	// reentrant: the shape is evaluated under an identity hook that, while a value is being resolved, evaluates the SAME
+	// evaluator on another datum (re-entrancy is the sequential way to overlap two evaluations of one syntax tree)
+	reentrant bool
+	// sel: collection selector (default S); longer selectors exercise path building (slices built by successive appends
+	// have spare capacity at 3 and 5..7 parts)
+	sel []string
 }
 
 func pick(code int, t, f, e *Node) *Node {
@@ -75,6 +85,22 @@ func c06Shapes(thorough bool) []c06shape {
 			return NSlice(NSlice(TAny).T, elems(p, NSlice(TAny, two, one), NSlice(TAny, two), NSlice(TAny, two, NNilAny(), one))...)
 		}},
 	}
+	// elements behind the wrapper struct; the whole shape is evaluated under the unwrap hook (cfg below)
+	shapes = append(shapes,
+		c06shape{name: "[]Wrapper (unwrap hook)", codes: 3, body: root, hook: HookUnwrap, mk: func(p []int) *Node {
+			return NSlice(NWrapper(one).T, elems(p, NWrapper(one), NWrapper(two), NWrapper(NNilAny()))...)
+		}},
+		c06shape{name: "map[string]interface{} of Wrapper (unwrap hook)", codes: 3, isMap: true, body: root, hook: HookUnwrap, mk: func(p []int) *Node {
+			return mapOf(TAny, elems(p, NWrapper(one), NWrapper(two), NWrapper(NSlice(TAny))))
+		}},
+		c06shape{name: "[]interface{} (identity hook, unknown value 2)", codes: 3, body: root, hook: HookIdentity, unknown: two, mk: func(p []int) *Node { return NSlice(TAny, elems(p, one, two, NNilAny())...) }},
+	)
+	shapes = append(shapes,
+		c06shape{name: "[]interface{} under a 3-part selector", codes: 3, body: root, sel: []string{"p", "q", "S"}, mk: func(p []int) *Node { return NSlice(TAny, elems(p, one, two, NNilAny())...) }},
+		c06shape{name: "[]interface{} under a 3-part selector, re-entrant hook", codes: 3, body: root, sel: []string{"p", "q", "S"}, hook: HookIdentity, reentrant: true, mk: func(p []int) *Node { return NSlice(TAny, elems(p, one, two, NNilAny())...) }},
+		c06shape{name: "map[string]interface{} under a 3-part selector, re-entrant hook", codes: 3, isMap: true, body: root, sel: []string{"p", "q", "S"}, hook: HookIdentity, reentrant: true, mk: func(p []int) *Node { return mapOf(TAny, elems(p, one, two, NNilAny())) }},
+		c06shape{name: "map[string]interface{} under a 5-part selector", codes: 3, isMap: true, body: root, sel: []string{"p", "q", "r", "s", "S"}, mk: func(p []int) *Node { return mapOf(TAny, elems(p, one, two, NNilAny())) }},
+	)
 	if thorough {
 		shapes = append(shapes,
 			c06shape{name: "[]*struct", codes: 3, body: fld, mk: func(p []int) *Node {
@@ -121,6 +147,9 @@ type c06expr struct {
 func c06Exprs(sh c06shape, thorough bool) []c06expr {
 	var out []c06expr
 	S := []string{"S"}
+	if sh.sel != nil {
+		S = sh.sel
+	}
 	namesFor := map[int][][2]string{
 		BindDefault: {{"i", "x"}, {"i", "t"}},             // only the value name matters
 		BindIndex:   {{"i", "x"}, {"t", "x"}, {"x", "t"}}, // only the index name matters
@@ -150,6 +179,14 @@ func c06Exprs(sh c06shape, thorough bool) []c06expr {
 					vb := sh.body(V)
 					jp := *vb
 					jp.JP = true
+					// the SAME collection iterated again inside its own body (outer alias must keep pointing at the outer element)
+					for _, innerAll := range []bool{false, true} {
+						tbs = append(tbs, tb{"same-collection-nested", &Quant{All: innerAll, Sel: S, Mode: BindValue, Val: "y", Body: &Bin{Or: false, L: sh.body("y"), R: vb}}})
+						// ... with a body that tells the two aliases apart (outer element is 1, inner element is 2)
+						y2 := *sh.body("y")
+						y2.Lit = "2"
+						tbs = append(tbs, tb{"same-collection-nested-distinct", &Quant{All: innerAll, Sel: S, Mode: BindBoth, Idx: "j", Val: "y", Body: &Bin{Or: innerAll, L: &y2, R: vb}}})
+					}
 					tbs = append(tbs,
 						tb{"value", vb},
 						tb{"value-json-pointer", &jp},
@@ -241,6 +278,8 @@ func unrolled(q *Quant, valName string, n int) any {
 	return res
 }
 
+var wrapSel []string
+
 func runC06(c *eng.Ctx) {
 	maxLen := 4
 	if c.Thorough() {
@@ -249,6 +288,13 @@ func runC06(c *eng.Ctx) {
 	shapes := c06Shapes(c.Thorough())
 	unit := 0
 	wrap := func(coll *Node, variant int) *Node {
+		if cur := wrapSel; len(cur) > 1 {
+			n := coll
+			for i := len(cur) - 1; i >= 1; i-- {
+				n = NMap(TStr, TAny, str(cur[i]), n)
+			}
+			return NMap(TStr, TAny, str(cur[0]), n, str("t"), one)
+		}
 		if variant == 1 {
 			return NPtr(NStruct(F{Name: "S", V: coll}, F{Name: "T", Tag: `bexpr:"t"`, V: one}, F{Name: "x", Unexp: true, V: one}))
 		}
@@ -259,6 +305,7 @@ func runC06(c *eng.Ctx) {
 		src string
 	}
 	for si, sh := range shapes {
+		wrapSel = sh.sel
 		pats := patterns(sh.codes, maxLen)
 		// size boundaries (append growth steps 8/16/32): long collections with the decisive / erroring element at the
 		// first, middle, last position and in both orders
@@ -294,7 +341,25 @@ func runC06(c *eng.Ctx) {
 				return
 			}
 			src := Render(x.q)
-			ev, err := bexpr.CreateEvaluator(src)
+			cfg := Cfg{Tag: "bexpr", Hook: sh.hook, Unknown: sh.unknown}
+			var ev *bexpr.Evaluator
+			var err error
+			if sh.reentrant {
+				var self *bexpr.Evaluator
+				depth := 0
+				other := Build(wrap(sh.mk([]int{vF, vE, vF, vF, vT, vF}), 0)).Interface()
+				ev, err = bexpr.CreateEvaluator(src, bexpr.WithHookFn(func(v reflect.Value) reflect.Value {
+					if depth == 0 && self != nil {
+						depth++
+						self.Evaluate(other)
+						depth--
+					}
+					return v
+				}))
+				self = ev
+			} else {
+				ev, err = bexpr.CreateEvaluator(src, optsFor(cfg)...)
+			}
 			if err != nil {
 				c.Violate(eng.Violation{Kind: "harness-expression-rejected", Key: "create: " + src, Detail: err.Error()})
 				continue
@@ -310,7 +375,7 @@ func runC06(c *eng.Ctx) {
 					}
 					d := wrap(sh.mk(pat), variant)
 					datum := Build(d).Interface()
-					rf := NewRef(d, defaultCfg)
+					rf := NewRef(d, cfg)
 					want := rf.Eval(x.q, nil)
 					got := observe(ev, datum)
 					c.R.Evaluations++
@@ -321,7 +386,7 @@ func runC06(c *eng.Ctx) {
 						c.R.Nontrivial++
 					}
 					if got.panicked || got.class&want == 0 {
-						c.Violate(eng.Violation{Kind: "reference-mismatch", Key: caseKey(src, d, defaultCfg), Coords: co, Case: describe(src, d, defaultCfg),
+						c.Violate(eng.Violation{Kind: "reference-mismatch", Key: caseKey(src, d, cfg), Coords: co, Case: describe(src, d, cfg),
 							Expected: SetStr(want), Observed: got.String(), Detail: fmt.Sprintf("shape=%s template=%s pattern=%v: %s", sh.name, x.template, pat, got.msg)})
 						continue
 					}
@@ -331,7 +396,7 @@ func runC06(c *eng.Ctx) {
 						u, ok := unr[len(pat)]
 						if !ok {
 							u.src = Render(unrolled(x.q, x.valName, len(pat)))
-							u.ev, err = bexpr.CreateEvaluator(u.src)
+							u.ev, err = bexpr.CreateEvaluator(u.src, optsFor(cfg)...)
 							if err != nil {
 								c.Violate(eng.Violation{Kind: "harness-expression-rejected", Key: "create: " + u.src, Detail: err.Error()})
 								u.ev = nil
@@ -353,6 +418,7 @@ func runC06(c *eng.Ctx) {
 			c.Sample(map[string]any{"expression": src, "shape": sh.name, "patterns": len(pats)})
 		}
 	}
+	wrapSel = nil
 	// non-iterables: every quantifier over them is an error (reference decides)
 	if c.Mine(0) && c.Want("s", -1) {
 		non := []*Node{one, str("a"), NNilAny(), NStruct(F{Name: "A", V: one}), NPtr(NSlice(TAny, one)), NMap(TInt, TInt, one, one), NMap(Sc(KString, true), TInt, NStr(true, "a"), one),
